@@ -16,6 +16,7 @@ import (
 	"bytes"
 	"fmt"
 	"hash/fnv"
+	"math"
 	"os"
 	"path/filepath"
 	"reflect"
@@ -77,6 +78,26 @@ func c15Gen(r *kit.Rand, i int) c15Case {
 	}
 	c := bsgen.Gen(r, o)
 	c15Fresh(c)
+	if len(c.Files) == 1 && !c.Flags.HasCol && r.Chance(0.6) {
+		// NaN / infinite measurements are legal input; cells holding them must
+		// still not depend on the order of lines (seeding round 2: a sort that
+		// treats NaN as a barrier). Only for single-column invocations: with a
+		// second column the comparison of a NaN-bearing sample never returns on
+		// the unchanged tree (go-moremath's U test loops forever on NaN and
+		// allocates without bound - outside C15's statement, see DESIGN.md §6).
+		var lines []*bsgen.Line
+		for fi := range c.Files {
+			for li := range c.Files[fi].Lines {
+				if l := &c.Files[fi].Lines[li]; l.K == bsgen.KBench && len(l.Vals) > 0 {
+					lines = append(lines, l)
+				}
+			}
+		}
+		for k := r.Range(1, 4); k > 0 && len(lines) > 0; k-- {
+			l := kit.Pick(r, lines)
+			l.Vals[r.Intn(len(l.Vals))].V = kit.F(kit.Pick(r, []float64{math.NaN(), math.NaN(), math.Inf(1), math.Inf(-1)}))
+		}
+	}
 	runs := 6
 	if kit.Thorough() {
 		runs = 12
